@@ -70,8 +70,11 @@ pub fn string_any(rng: &mut StdRng, xml_safe: bool) -> String {
         "", " ", "  lead", "trail  ", "a]]>b", "<tag attr=\"v\">&amp;</tag>", "line1\nline2", "cr\rlf\r\n", "\t",
         "h\u{e9}llo w\u{f6}rld", "\u{1F600}", "]]>", "&lt;", "plain",
     ];
-    if rng.gen_bool(0.6) {
-        return POOL[rng.gen_range(0..POOL.len())].to_string();
+    match rng.gen_range(0..10) {
+        0..=4 => return POOL[rng.gen_range(0..POOL.len())].to_string(),
+        // several fragments in a row: repeated CDATA terminators, markup next to outer whitespace ...
+        5 | 6 => return (0..rng.gen_range(2..6)).map(|_| POOL[rng.gen_range(0..POOL.len())]).collect::<Vec<_>>().concat(),
+        _ => {}
     }
     let n = rng.gen_range(0..20);
     (0..n)
